@@ -546,3 +546,76 @@ PROPS["C07"] = PropSpec(c07_streams,
                         _RULE % "life-cycle histories build → queries → save → load → queries → destroy under ASan+UBSan; 1200+ strings; 2000-byte strings; FC kinds rebuilt with MEMALLOC 1/7 (thorough: 1/2/7/64)",
                         ["memory safety of the C++ runtime is monitored by sanitizers on the runs, the theorems cover the index arithmetic of the modelled buffers only"],
                         "index-bounds theorems for the modelled buffers; sanitizers monitor every correspondence run", _ASSUME)
+
+
+# --------------------------------------------------------------------------- C09 / C10 / C11 (parallel build, worker pool)
+def pool_cases(tier, rng, name):
+    thorough = tier == "thorough"
+    r = rng.fork("pool" + name)
+    cases = []
+    cid = 0
+    Ns = [1, 2, 3, 8] if thorough else [1, 2, 3, 8]
+    Ts = [0, 1, 2, 3, 9, 50] if thorough else [0, 1, 2, 4, 20]
+    reps = 12 if thorough else 3
+    for N in Ns:
+        for T in Ts:
+            for mode in ("stoplast", "waitdone", "stopnow"):
+                for strat in (0, 1, 2, 3, 4, 5):
+                    ops = [["pool", N, T, mode, strat, r.below(1 << 30)] for _ in range(reps)]
+                    cases.append(("%s%d" % (name, cid), "pool", "-", {"n": N, "t": T}, [], ops))
+                    cid += 1
+    return cases
+
+
+def blocks_cases(tier, rng, name, per_dict=2):
+    thorough = tier == "thorough"
+    r = rng.fork("blocks" + name)
+    bat = small_battery(tier, rng, 30 if thorough else 8)
+    bat = [x for x in bat if len(x[1]) >= 2]
+    bat.append(("many", gen.g2_dict(r, 1500 if thorough else 400, 26, "mixed")))
+    cases = []
+    for dname, S in bat:
+        total = sum(len(s) + 1 for s in S)
+        for cut in sorted(set([1, 8, 64, max(1, total // 2), total, total + 10])):
+            ops = []
+            for k in range(per_dict):
+                strat = r.choice([0, 1, 3, 4, 5])
+                ops.append(["blocksdet", strat, r.below(1 << 30), 2, 3, r.choice([8, 16])])
+            ops += [["rt", hx(s)] for s in S[:6]] + [["exts"]]
+            cases.append(("%s_%s_cut%d" % (name, dname, cut), "dict", "BLOCKS", {"ov": r.choice([0, 25]), "cut": cut, "thr": r.choice([2, 4])}, S, ops))
+    return cases
+
+
+def c10_streams(tier, rng):
+    return [StreamSet("pool", "asan", pool_cases(tier, rng, "pl"), timeout=8)]
+
+
+def c09_streams(tier, rng):
+    return [StreamSet("blocksdet", "asan", blocks_cases(tier, rng, "bd"), timeout=60)]
+
+
+def c11_streams(tier, rng):
+    env = {"TSAN_OPTIONS": "halt_on_error=0:report_signal_unsafe=0:exitcode=0:second_deadlock_stack=1"}
+    pc = [c for i, c in enumerate(pool_cases(tier, rng, "tp")) if i % 3 == 0]
+    return [StreamSet("tsan-pool", "tsan", pc, timeout=30, env=env),
+            StreamSet("tsan-blocks", "tsan", blocks_cases(tier, rng, "tb", per_dict=1), timeout=120, env=env)]
+
+
+PROPS["C10"] = PropSpec(c10_streams,
+                        "worker counts {1,2,3,8} × task counts {0,1,2,4,20} × shutdown pattern {last task stops, wait-then-stop, stop at once} × schedule perturbation strategy "
+                        "{none, random delays, pause when the wait predicate is false, both, slow producer, slow workers} × seeds, on the real threads through the LIBCSD_VERIF_POINT hooks; "
+                        "a hang is a timeout; non-trivial = at least 2 runs; distinct by (N, T, mode, strategy, seed)",
+                        ["thread interleavings inside libstdc++'s condition_variable are represented by the two-step wait of the model, not executed exhaustively"],
+                        "state-machine model of the pool with invariants (at most once, exactly once at termination, no stuck state); the real pool is driven under perturbed schedules",
+                        ["std::mutex / std::condition_variable behave as the C++17 standard says"])
+PROPS["C09"] = PropSpec(c09_streams,
+                        "BLOCKS dictionaries × cut sizes {1, 8, 64, total/2, total, > total} × thread counts {2,3,8|16} × perturbation strategies: image compared byte for byte with the single-thread image, "
+                        "every block complete on return, answers compared with the specification",
+                        ["HASHRPDAC part construction is compared with the specification, not modelled byte for byte"],
+                        "schedule-independence of the parts vector and the image in the pool model; images across thread counts and perturbed schedules on the real code",
+                        _ASSUME)
+PROPS["C11"] = PropSpec(c11_streams,
+                        "the C10 pool runs and the C09 block builds under ThreadSanitizer with perturbed schedules; every TSan report is a violation",
+                        ["a lock-discipline theorem about a model cannot see an access the model does not have; TSan sees only the schedules run"],
+                        "lock discipline of the pool model (every shared location is accessed under its lock or ordered by create/join); TSan on the real threads",
+                        ["ThreadSanitizer's happens-before detection"])
